@@ -1086,7 +1086,13 @@ pub fn judge_c17b(info: &Info, log: &RunLog, rep: &mut Report) {
                     if !su {
                         rep.violate("handler-not-applied", format!("{} missing=suspended-indication", hk), &info.case, w("handler Suspend: no Suspended indication followed the fault"));
                     }
-                    let bad = after.iter().filter(|e| matches!(e.3, Kind::Metadata | Kind::FileData | Kind::Eof | Kind::Nak | Kind::Finished)).count();
+                    // a cancel (arriving from the peer, or issued by the user) ends the suspension
+                    let cancel_t = arrs.iter().filter(|a| a.1 > *tf && match &a.3.payload {
+                        PDUPayload::Directive(Operations::EoF(x)) => x.condition != Condition::NoError,
+                        PDUPayload::Directive(Operations::Finished(x)) => x.condition != Condition::NoError,
+                        _ => false,
+                    }).map(|a| a.1).min().unwrap_or(u64::MAX);
+                    let bad = after.iter().filter(|e| e.1 < cancel_t && matches!(e.3, Kind::Metadata | Kind::FileData | Kind::Eof | Kind::Nak | Kind::Finished)).count();
                     if bad > 0 {
                         rep.violate("handler-not-applied", format!("{} pdus-after-suspend", hk), &info.case, w(&format!("handler Suspend: {} data/EOF/NAK/Finished PDUs were emitted after the fault", bad)));
                     }
